@@ -144,7 +144,9 @@ def case(draw, mmax=8, allow_r=True, force_m=None):
     # the closed forms are singular at lambda = mu with psi = 0 (A = 0): stay away from the critical point
     R = [1.3 if (s[i] == 0 and abs(R[i] - 1.0) < 0.05) else R[i] for i in range(m)]
     rho = [0.0] * m
-    rho[m - 1] = draw(st.sampled_from([0.0, 0.5, draw(fl(0.01, 0.99))])) if (serial and any(x == 0 for x in t["tip_heights"])) else draw(fl(0.01, 0.99))
+    RHO = st.one_of(fl(0.01, 0.99), fl(0.01, 0.99), logu(1e-20, 1e-3))  # sparse sampling down to 1e-20 is admissible
+    # (only next to psi-sampling: with rho the only source of samples, 1 - p0 = O(rho) cancels completely)
+    rho[m - 1] = draw(st.sampled_from([0.0, 0.5, draw(RHO)])) if (serial and any(x == 0 for x in t["tip_heights"])) else draw(RHO if serial else fl(0.01, 0.99))
     if not serial and all(x == 0 for x in s) and rho[m - 1] == 0:
         rho[m - 1] = 0.4
     tipset = set(t["tip_heights"])
@@ -167,6 +169,8 @@ def case(draw, mmax=8, allow_r=True, force_m=None):
         c["relative"] = False
     if want_r:
         c["r"] = [draw(fl(0.05, 1.0)) for _ in range(m)] if draw(st.booleans()) else [1.0] * m
+    # the short form: a single value acting at the present (what the command-line tools write)
+    c["rho_short"] = all(x == 0 for x in rho[:-1]) and draw(st.booleans())
     c["f32default"] = draw(st.sampled_from([False, False, True]))
     # further parameter sets evaluated in the same call (a sample dimension): factors for R and for the positive rho's
     c["brows"] = [[draw(logu(0.5, 2.0)), draw(fl(0.3, 1.0))] for _ in range(draw(st.sampled_from([0, 0, 1, 2])))]
@@ -189,7 +193,7 @@ def spec_of(c):
     tree = {"id": "tree", "type": "TimeTreeModel", "newick": topo.newick(names), "taxa": "taxa", "internal_heights": tt.P("heights", [h[i] for i in range(n, 2 * n - 1)])}
     m = len(c["R"])
     spec = {"id": "bdsk", "type": "BDSKModel", "tree_model": tree, "R": tt.P("R", c["R"]), "delta": tt.P("delta", c["delta"]), "s": tt.P("s", c["s"]),
-            "rho": tt.P("rho", c["rho"]), "survival": c["survival"]}
+            "rho": tt.P("rho", c["rho"][-1:] if c.get("rho_short") else c["rho"]), "survival": c["survival"]}
     if c["root_edge"]:
         spec["origin"] = tt.P("origin", [c["extra"]])
         spec["origin_is_root_edge"] = True
